@@ -94,12 +94,12 @@ class Line(GeoBody):
         return hash(
             (
                 "Line",
-                round(d[0], SIG_FIGURES),
-                round(d[1], SIG_FIGURES),
-                round(d[2], SIG_FIGURES),
-                round(m[0], SIG_FIGURES),
-                round(m[1], SIG_FIGURES),
-                round(m[2], SIG_FIGURES),
+                round(d[0], get_sig_figures()),
+                round(d[1], get_sig_figures()),
+                round(d[2], get_sig_figures()),
+                round(m[0], get_sig_figures()),
+                round(m[1], get_sig_figures()),
+                round(m[2], get_sig_figures()),
             )
         )
 
